@@ -31,6 +31,10 @@ CHECKS = {
          "held on everything observed: 350 (quick) / 7 000 (thorough) projects, ~3 300 / ~66 000 fields over length/range/email/url combinations, 10 field types, 27 bound spellings, messages over Unicode/quotes/backslashes/parentheses/keywords, one or several attributes", "4 C11"),
  "C12": ("exploration", "runtime monitor: generated emit placements / receivers / payload forms with ground truth; listeners parsed from events.ts (listen literal, identifier, payload type) and compared",
          "held on everything observed: every placement (18), documented receiver form (8) and payload form (33) systematically in both modes plus 300 (quick) / 5 000 (thorough) random projects with 1-5 events emitted from 1-3 functions/files over the Tauri event-name alphabet; no-events case", "4 C12"),
+ "C13": ("exploration", "runtime monitor (differential): the real CLI on one project under replayable hash seeds (getrandom shim), OS-entropy processes, permuted directory order, --verbose/--visualize-deps and semantics-preserving source transformations; byte / declaration-multiset comparison",
+         "held on everything observed: 60 (quick) / 600 (thorough) multi-file projects x 12/48 schedules x 4/8 transformations; evidence reports how many distinct outputs and declaration orders were actually seen (1 per project when the property holds)", "4 C13"),
+ "C14": ("exploration", "runtime monitor (filesystem): snapshot of bytes/mtime_ns/inode around the second run plus strace log of mutating syscalls; forced runs from five cache states observed by content and mtime",
+         "held on everything observed: 80 (quick) / 800 (thorough) projects of 1-6 files with 0-3 type mappings x CLI and build-script path x 3/12 unchanged re-runs under other hash seeds, and --force / force:true from absent, matching, mismatching, corrupt and wrong-version caches", "4 C14"),
  "C20": ("exploration", "runtime monitor: real ordering routines driven over enumerated graphs, each result judged by a closure/SCC oracle; crash = replayed and bisected",
          "held on every call observed: exhaustive over all digraphs (self-loops included) on <=3 nodes in quick and <=4 nodes in thorough, x all requested subsets x repeated fresh hash seeds, plus random graphs to 12 nodes; evidence reports distinct result orders seen per case", "4 C20"),
 }
